@@ -184,7 +184,7 @@ func (s Spec) Rule() rule.Rule {
 }
 
 // ShQuote quotes an argument for the shell-style tokenizer (single quotes; a
-// single quote inside is written as '\'').
+// single quote inside is written as '\”).
 func ShQuote(a string) string {
 	if a != "" && !strings.ContainsAny(a, " \t\n'\"\\") {
 		return a
@@ -472,10 +472,10 @@ func genString(t *rapid.T, label string, o Opts, max int) []byte {
 	}
 	var s string
 	if o.Strict {
-		s = rapid.StringMatching(`[A-Za-z0-9_./:,@%+-][A-Za-z0-9_./:=,@%+<>&!-]{0,` + strconv.Itoa(max-1) + `}`).Draw(t, label)
+		s = rapid.StringMatching(`[A-Za-z0-9_./:,@%+-][A-Za-z0-9_./:=,@%+<>&!-]{0,`+strconv.Itoa(max-1)+`}`).Draw(t, label)
 	} else if o.FlagsRoute {
 		// the shell-style tokenizer cannot carry every byte; stay with printable text plus quotes and spaces
-		s = rapid.StringMatching(`[A-Za-z0-9_./:,@%+ '"\\-][A-Za-z0-9_./:=,@%+ '"\\<>&!-]{0,` + strconv.Itoa(max-1) + `}`).Draw(t, label)
+		s = rapid.StringMatching(`[A-Za-z0-9_./:,@%+ '"\\-][A-Za-z0-9_./:=,@%+ '"\\<>&!-]{0,`+strconv.Itoa(max-1)+`}`).Draw(t, label)
 	} else {
 		b := rapid.SliceOfN(rapid.OneOf(rapid.ByteRange(0x20, 0x7e), rapid.ByteRange(1, 255)), 1, max).Draw(t, label)
 		s = string(b)
